@@ -62,3 +62,38 @@ Print Assumptions C11_union_engine.
 Theorem C11_dedup_nodup : forall hc seen l, NoDup (fst (dedup_hash hc seen l)).
 Proof. exact dedup_hash_NoDup. Qed.
 Print Assumptions C11_dedup_nodup.
+
+(* ------------------------------------------------------------------ *)
+(* END TO END, from the TEXT  P1 | P2  (predicate-free paths, any white-space layout): Compile
+   succeeds and Select returns every node of P1 or of P2, each exactly once.  Hypotheses are the
+   ones of the identity-key theorems above. *)
+From XP Require Import Scan Parse Build Api.
+From XP.Spec Require Import Axes Paths.
+From XP.Proofs Require Import RoundTripPaths RoundTripWs EndToEndPaths EndToEndUnion.
+
+Theorem C11_end_to_end_union : forall D has_ns rm rn rr re_ok ns p1 p2 abs1 steps1 abs2 steps2,
+  wf_attrs D = true -> no_inner_root D = true -> fnv_ok D (all_nodes D) ->
+  path_syntax p1 -> steps_of p1 = (abs1, steps1) ->
+  path_syntax p2 -> steps_of p2 = (abs2, steps2) ->
+  xok (union_px p1 p2) ->
+  List.length steps1 + 1 < max_build_depth -> List.length steps2 + 1 < max_build_depth ->
+  exists q, compile re_ok (print_min (union_px p1 p2)) ns = Ok q /\
+    forall c, valid D c = true ->
+    exists l, select rm rn rr hash_code D has_ns q c = Val l /\ NoDup l /\
+      forall n, In n l <-> path_den D has_ns steps1 (if abs1 then root_node else c) n
+                        \/ path_den D has_ns steps2 (if abs2 then root_node else c) n.
+Proof. exact C11_union_engine_end_to_end. Qed.
+Print Assumptions C11_end_to_end_union.
+
+Theorem C11_end_to_end_union_any_layout : forall D has_ns hcode rm rn rr re_ok ns p1 p2 abs1 steps1 abs2 steps2,
+  path_syntax p1 -> steps_of p1 = (abs1, steps1) ->
+  path_syntax p2 -> steps_of p2 = (abs2, steps2) ->
+  xok (union_px p1 p2) ->
+  List.length steps1 + 1 < max_build_depth -> List.length steps2 + 1 < max_build_depth ->
+  hash_ok hcode (all_nodes D) ->
+  exists q, compile re_ok (print_min (union_px p1 p2)) ns = Ok q /\
+            compile re_ok (print_sp (union_px p1 p2)) ns = Ok q /\
+            (forall w, ws_fun w -> compile re_ok (print_ws w (union_px p1 p2)) ns = Ok q) /\
+            union_result D has_ns hcode rm rn rr q abs1 steps1 abs2 steps2.
+Proof. exact C11_union_end_to_end. Qed.
+Print Assumptions C11_end_to_end_union_any_layout.
